@@ -689,4 +689,371 @@ theorem idnaLabels_self {lowerStr : List Char → List Char} (hA : LowerAscii lo
       rw [hA.ascii n h1, (map_asciiLower_ascii n h1).2.2.2 h2]
     simp only [idnaLabels, hl, ih (fun m hm => h m (List.mem_cons_of_mem _ hm))]
 
+/-! ## No arithmetic surprise on inputs of at most 3855 characters
+
+The unchecked `delta += 1` cannot overflow, the checked multiplication cannot fail and
+`min().unwrap()` cannot panic when the input has at most 3855 characters: the two profiles agree
+and the encoder succeeds. -/
+
+theorem char_toNat_lt (c : Char) : c.toNat < 0x110000 := by
+  have := c.valid
+  simp only [Char.toNat]
+  rcases this with h | h
+  · have : c.val.toNat < 0xd800 := h
+    omega
+  · have : c.val.toNat < 0x110000 := h.2
+    omega
+
+theorem incr_ok (p : Profile) (d : Nat) (h : d + 1 ≤ u32Max) : incr p d = some (d + 1) := by
+  simp [incr, h]
+
+/-- Without overflow the inner loop does the same in both profiles; `h` counts the occurrences of
+`n`; `delta` ends below the number of characters scanned after the last occurrence of `n`. -/
+theorem inner_noovf (p : Profile) (b : Nat) (cs : List Char) :
+    ∀ st, st.delta + cs.length ≤ u32Max →
+      ∃ st', inner p b cs st = some st' ∧ inner .dev b cs st = some st' ∧
+        st'.n = st.n ∧
+        st'.h = st.h + cs.countP (fun c => c.toNat = st.n) ∧
+        st'.delta ≤ st.delta + cs.length ∧
+        ((∃ c ∈ cs, c.toNat = st.n) → st'.delta + 1 ≤ cs.length) := by
+  induction cs with
+  | nil => intro st _; exact ⟨st, rfl, rfl, rfl, by simp, by simp, by simp⟩
+  | cons c cs ih =>
+    intro st hb
+    simp only [List.length_cons] at hb
+    by_cases hlt : c.toNat < st.n
+    · have hi : ∀ q, incr q st.delta = some (st.delta + 1) := fun q => incr_ok q _ (by omega)
+      obtain ⟨st', h1, h2, h3, h4, h5, h6⟩ := ih { st with delta := st.delta + 1 }
+        (by simp only; omega)
+      refine ⟨st', ?_, ?_, h3, ?_, ?_, ?_⟩
+      · simp only [inner, hlt, if_true, hi]; exact h1
+      · simp only [inner, hlt, if_true, hi]; exact h2
+      · rw [h4, List.countP_cons]
+        have : ¬ c.toNat = st.n := by omega
+        simp [this]
+      · simp only [List.length_cons] at h5 ⊢; omega
+      · rintro ⟨x, hx, hxn⟩
+        rcases List.mem_cons.1 hx with rfl | hx
+        · omega
+        · have := h6 ⟨x, hx, hxn⟩
+          simp only [List.length_cons]; omega
+    · by_cases heq : c.toNat = st.n
+      · obtain ⟨st', h1, h2, h3, h4, h5, _⟩ := ih
+          { st with
+            out := st.out ++ emitDigits st.delta 36 st.delta st.bias
+            bias := adapt st.delta (st.h + 1) (st.h == b)
+            delta := 0
+            h := st.h + 1 } (by simp only; omega)
+        refine ⟨st', ?_, ?_, h3, ?_, ?_, ?_⟩
+        · simp only [inner, heq, Nat.lt_irrefl, if_false, if_true]; exact h1
+        · simp only [inner, heq, Nat.lt_irrefl, if_false, if_true]; exact h2
+        · rw [h4, List.countP_cons]
+          simp only [heq, decide_true, if_true]
+          omega
+        · simp only [List.length_cons] at h5 ⊢; omega
+        · intro _
+          simp only [List.length_cons] at h5 ⊢; omega
+      · obtain ⟨st', h1, h2, h3, h4, h5, h6⟩ := ih st (by omega)
+        refine ⟨st', ?_, ?_, h3, ?_, ?_, ?_⟩
+        · simp only [inner, hlt, if_false, heq]; exact h1
+        · simp only [inner, hlt, if_false, heq]; exact h2
+        · rw [h4, List.countP_cons]
+          simp [heq]
+        · simp only [List.length_cons]; omega
+        · rintro ⟨x, hx, hxn⟩
+          rcases List.mem_cons.1 hx with rfl | hx
+          · exact absurd hxn heq
+          · have := h6 ⟨x, hx, hxn⟩
+            simp only [List.length_cons]; omega
+
+theorem minGe_none (n : Nat) (cs : List Char) (h : minGe n cs = none) :
+    ∀ c ∈ cs, c.toNat < n := by
+  induction cs with
+  | nil => simp
+  | cons c cs ih =>
+    simp only [minGe] at h
+    split at h
+    · split at h <;> exact absurd h (by simp)
+    · rename_i hlt
+      intro x hx
+      rcases List.mem_cons.1 hx with rfl | hx
+      · omega
+      · exact ih h x hx
+
+theorem minGe_min (n : Nat) (cs : List Char) (m : Nat) (h : minGe n cs = some m) :
+    ∀ c ∈ cs, n ≤ c.toNat → m ≤ c.toNat := by
+  induction cs generalizing m with
+  | nil => simp
+  | cons c cs ih =>
+    simp only [minGe] at h
+    split at h
+    · rename_i hge
+      split at h
+      · rename_i hnone
+        simp only [Option.some.injEq] at h
+        intro x hx hxn
+        rcases List.mem_cons.1 hx with rfl | hx
+        · omega
+        · have := minGe_none n cs hnone x hx; omega
+      · rename_i m' hm'
+        simp only [Option.some.injEq] at h
+        have hle1 : m ≤ c.toNat := by rw [← h]; exact Nat.min_le_left _ _
+        have hle2 : m ≤ m' := by rw [← h]; exact Nat.min_le_right _ _
+        intro x hx hxn
+        rcases List.mem_cons.1 hx with rfl | hx
+        · exact hle1
+        · exact Nat.le_trans hle2 (ih m' hm' x hx hxn)
+    · rename_i hlt
+      intro x hx hxn
+      rcases List.mem_cons.1 hx with rfl | hx
+      · omega
+      · exact ih m h x hx hxn
+
+theorem countP_lt_succ (n m : Nat) (cs : List Char) (hnm : n ≤ m)
+    (hgap : ∀ c ∈ cs, n ≤ c.toNat → m ≤ c.toNat) :
+    cs.countP (fun c => c.toNat < m + 1) =
+      cs.countP (fun c => c.toNat < n) + cs.countP (fun c => c.toNat = m) := by
+  induction cs with
+  | nil => rfl
+  | cons c cs ih =>
+    have := ih (fun x hx => hgap x (List.mem_cons_of_mem _ hx))
+    have hc := hgap c List.mem_cons_self
+    simp only [List.countP_cons, this]
+    by_cases h1 : c.toNat < n
+    · have h2 : c.toNat < m + 1 := by omega
+      have h3 : ¬ c.toNat = m := by omega
+      simp only [h1, h2, h3, decide_true, decide_false, if_true, Bool.false_eq_true, if_false]
+      omega
+    · have hc' := hc (by omega)
+      by_cases h3 : c.toNat = m
+      · have h2 : m < m + 1 := by omega
+        have h1' : ¬ m < n := by omega
+        simp only [h3, h1', h2, decide_true, decide_false, if_true, Bool.false_eq_true, if_false]
+        omega
+      · have h2 : ¬ c.toNat < m + 1 := by omega
+        simp only [h1, h2, h3, decide_false, Bool.false_eq_true, if_false]
+        omega
+
+theorem countP_le_length' (q : Char → Bool) (cs : List Char) : cs.countP q ≤ cs.length :=
+  List.countP_le_length
+
+/-- Loop invariant of the outer loop. -/
+structure OuterInv (input : List Char) (st : St) : Prop where
+  hcount : st.h = input.countP (fun c => c.toNat < st.n)
+  hdelta : st.delta ≤ input.length
+  hn : 128 ≤ st.n
+
+theorem outer_short (p : Profile) (b : Nat) (input : List Char) (hL : input.length ≤ 3855)
+    (f : Nat) : ∀ st, OuterInv input st →
+      outer p b input f st = outer .dev b input f st ∧
+      outer .dev b input f st ≠ .panic ∧ outer .dev b input f st ≠ .err := by
+  induction f with
+  | zero =>
+    intro st _
+    simp only [outer]
+    split <;> simp
+  | succ f ih =>
+    intro st inv
+    simp only [outer]
+    by_cases hlt : st.h < input.length
+    · simp only [hlt, if_true]
+      cases hm : minGe st.n input with
+      | none =>
+        exfalso
+        have hall := minGe_none _ _ hm
+        have : input.countP (fun c => c.toNat < st.n) = input.length := by
+          rw [List.countP_eq_length]
+          intro c hc
+          simpa using hall c hc
+        rw [← inv.hcount] at this
+        omega
+      | some m =>
+        obtain ⟨hnm, x, hx, hxm⟩ := minGe_spec _ _ _ hm
+        have hmlt : m < 0x110000 := by rw [← hxm]; exact char_toNat_lt x
+        have hd := inv.hdelta
+        have hn := inv.hn
+        have hprod : (m - st.n) * (st.h + 1) ≤ 1113983 * 3855 :=
+          Nat.mul_le_mul (by omega) (by omega)
+        have hcheck : ¬ (m - st.n > (u32Max - st.delta) / (st.h + 1)) := by
+          have : m - st.n ≤ (u32Max - st.delta) / (st.h + 1) := by
+            rw [Nat.le_div_iff_mul_le (by omega)]
+            simp only [u32Max]; omega
+          omega
+        simp only [hcheck, if_false]
+        obtain ⟨st2, h1, h2, h3, h4, h5, h6⟩ := inner_noovf p b input
+          { st with delta := st.delta + (m - st.n) * (st.h + 1), n := m }
+          (by simp only [u32Max]; omega)
+        simp only at h3 h4 h5 h6
+        have h6' := h6 ⟨x, hx, hxm⟩
+        rw [h1, h2]
+        simp only
+        have hi : ∀ q, incr q st2.delta = some (st2.delta + 1) :=
+          fun q => incr_ok q _ (by simp only [u32Max]; omega)
+        rw [hi p, hi .dev]
+        simp only
+        apply ih
+        constructor
+        · simp only
+          rw [h4, h3, inv.hcount]
+          exact (countP_lt_succ st.n m input hnm (minGe_min _ _ _ hm)).symm
+        · simp only; omega
+        · simp only; omega
+    · simp [hlt]
+
+theorem punycode_short (p : Profile) (input : List Char) (hL : input.length ≤ 3855) :
+    ∃ out, punycodeEncodeP p input = .ok out ∧ punycodeEncodeP .dev input = .ok out := by
+  have hinv : OuterInv input
+      { n := 128, delta := 0, bias := 72, h := (input.filter isAscii).length,
+        out := if (input.filter isAscii).length > 0 then input.filter isAscii ++ ['-']
+               else input.filter isAscii } := by
+    constructor
+    · simp only
+      rw [← List.countP_eq_length_filter]
+      congr 1
+    · simp
+    · simp
+  obtain ⟨h1, h2, h3⟩ := outer_short p (input.filter isAscii).length input hL
+    (input.length + 1) _ hinv
+  have h4 := punycode_fuel_enough .dev input
+  unfold punycodeEncodeP at h4 ⊢
+  simp only at h4 ⊢
+  rw [h1]
+  cases hr : outer .dev (input.filter isAscii).length input (input.length + 1) _ with
+  | ok out => exact ⟨out, rfl, rfl⟩
+  | err => exact absurd hr h3
+  | panic => exact absurd hr h2
+  | fuel => exact absurd hr h4
+
+/-! ## The unchecked overflow is reachable (4001 characters) -/
+
+theorem inner_replicate_eq (p : Profile) (b : Nat) (a : Char) (rest : List Char) (k : Nat) :
+    ∀ st, a.toNat = st.n →
+      ∃ bias out, inner p b (List.replicate k a ++ rest) st =
+        inner p b rest
+          { n := st.n, delta := if k = 0 then st.delta else 0, bias := bias, h := st.h + k,
+            out := out } := by
+  induction k with
+  | zero => intro st _; exact ⟨st.bias, st.out, by simp⟩
+  | succ k ih =>
+    intro st ha
+    obtain ⟨bias, out, h⟩ := ih
+      { st with
+        out := st.out ++ emitDigits st.delta 36 st.delta st.bias
+        bias := adapt st.delta (st.h + 1) (st.h == b)
+        delta := 0
+        h := st.h + 1 } ha
+    refine ⟨bias, out, ?_⟩
+    simp only [List.replicate_succ, List.cons_append, inner, ha, Nat.lt_irrefl, if_false, if_true]
+    rw [h]
+    simp only [Nat.succ_ne_zero, if_false]
+    congr 2
+    · split <;> rfl
+    · omega
+
+theorem inner_replicate_panic (b : Nat) (a : Char) (rest : List Char) (k : Nat) :
+    ∀ st, a.toNat < st.n → st.delta ≤ u32Max → st.delta + k > u32Max →
+      inner .dev b (List.replicate k a ++ rest) st = none := by
+  induction k with
+  | zero => intro st _ h1 h2; omega
+  | succ k ih =>
+    intro st ha h1 h2
+    simp only [List.replicate_succ, List.cons_append, inner, ha, if_true]
+    by_cases hd : st.delta + 1 ≤ u32Max
+    · simp only [incr, hd, if_true]
+      exact ih { st with delta := st.delta + 1 } ha hd (by simp only; omega)
+    · simp only [incr, hd, if_false]
+
+theorem minGe_eq_of (n : Nat) (cs : List Char) (x : Char) (hx : x ∈ cs) (hxn : n ≤ x.toNat)
+    (hmin : ∀ c ∈ cs, n ≤ c.toNat → x.toNat ≤ c.toNat) : minGe n cs = some x.toNat := by
+  cases h : minGe n cs with
+  | none => have := minGe_none n cs h x hx; omega
+  | some m =>
+    obtain ⟨h1, c, hc, hcm⟩ := minGe_spec n cs m h
+    have h2 := minGe_min n cs m h x hx hxn
+    have h3 := hmin c hc (by omega)
+    congr 1; omega
+
+/-- `k` × U+0080 followed by U+1061C2 (kept generic in `k` so that no tactic unfolds the list). -/
+def witnessK (k : Nat) : List Char := List.replicate k (Char.ofNat 0x80) ++ [Char.ofNat 0x1061C2]
+
+theorem witnessK_panics (k : Nat) (hk : 0 < k)
+    (hcheck : ¬ (1073602 - (128 + 1) > (u32Max - (0 + 1)) / (k + 1)))
+    (hle : 0 + 1 + (1073602 - (128 + 1)) * (k + 1) ≤ u32Max)
+    (hov : 0 + 1 + (1073602 - (128 + 1)) * (k + 1) + k > u32Max) :
+    punycodeEncodeP .dev (witnessK k) = .panic := by
+  have ha : (Char.ofNat 0x80).toNat = 128 := by decide
+  have hx : (Char.ofNat 0x1061C2).toNat = 1073602 := by decide
+  have hfilter : (witnessK k).filter isAscii = [] := by
+    have h1 : isAscii (Char.ofNat 0x80) = false := by decide
+    have h2 : isAscii (Char.ofNat 0x1061C2) = false := by decide
+    simp only [witnessK, List.filter_append, List.filter_replicate, h1, Bool.false_eq_true,
+      if_false, List.filter_cons, h2, List.filter_nil, List.append_nil]
+  have hlen : (witnessK k).length = k + 1 := by
+    simp only [witnessK, List.length_append, List.length_replicate, List.length_cons,
+      List.length_nil]
+  have hmem : ∀ c ∈ witnessK k, c = Char.ofNat 0x80 ∨ c = Char.ofNat 0x1061C2 := by
+    intro c hc
+    simp only [witnessK, List.mem_append, List.mem_replicate, List.mem_singleton] at hc
+    rcases hc with ⟨_, h⟩ | h
+    · exact Or.inl h
+    · exact Or.inr h
+  have hmemA : Char.ofNat 0x80 ∈ witnessK k := by
+    simp only [witnessK, List.mem_append, List.mem_replicate]
+    exact Or.inl ⟨by omega, trivial⟩
+  have hmemX : Char.ofNat 0x1061C2 ∈ witnessK k := by
+    simp only [witnessK, List.mem_append, List.mem_singleton]
+    exact Or.inr trivial
+  have hmin1 : minGe 128 (witnessK k) = some 128 := by
+    rw [← ha]
+    apply minGe_eq_of _ _ _ hmemA
+    · omega
+    · intro c hc _
+      rcases hmem c hc with rfl | rfl <;> omega
+  have hmin2 : minGe (128 + 1) (witnessK k) = some 1073602 := by
+    rw [← hx]
+    apply minGe_eq_of _ _ _ hmemX
+    · omega
+    · intro c hc hge
+      rcases hmem c hc with rfl | rfl <;> omega
+  unfold punycodeEncodeP
+  simp only [hfilter, List.length_nil, Nat.lt_irrefl, if_false, hlen]
+  -- first turn of the outer loop: n = 128, the `k` copies of U+0080 are handled
+  rw [outer]
+  simp only [hlen, show (0 : Nat) < k + 1 from by omega, if_true, hmin1, Nat.sub_self, Nat.zero_mul,
+    Nat.add_zero]
+  rw [if_neg (by simp)]
+  obtain ⟨bias, out, hin⟩ := inner_replicate_eq .dev 0 (Char.ofNat 0x80) [Char.ofNat 0x1061C2] k
+    { n := 128, delta := 0, bias := 72, h := 0, out := [] } ha
+  have hin' : inner .dev 0 (witnessK k) { n := 128, delta := 0, bias := 72, h := 0, out := [] } =
+      some { n := 128, delta := 0, bias := bias, h := k, out := out } := by
+    unfold witnessK
+    rw [hin]
+    have h1 : ¬ (1073602 < 128) := by omega
+    have h2 : ¬ (1073602 = 128) := by omega
+    simp only [inner, hx, h1, h2, if_false, Nat.zero_add]
+    split <;> rfl
+  rw [hin']
+  simp only [incr, u32Max, show (0 + 1 : Nat) ≤ 4294967295 from by omega, if_true]
+  -- second turn: n = 129, m = U+1061C2, the checked multiplication passes, then the unchecked
+  -- increments overflow
+  rw [outer]
+  simp only [hlen, show k < k + 1 from by omega, if_true, hmin2]
+  rw [if_neg hcheck]
+  have hpanic := inner_replicate_panic 0 (Char.ofNat 0x80) [Char.ofNat 0x1061C2] k
+    { n := 1073602, delta := 0 + 1 + (1073602 - (128 + 1)) * (k + 1), bias := bias, h := k,
+      out := out }
+    (by simp only [ha]; omega) hle hov
+  unfold witnessK
+  rw [hpanic]
+
+/-- 4000 × U+0080 followed by U+1061C2. -/
+def overflowWitness : List Char := witnessK 4000
+
+theorem overflowWitness_panics : punycodeEncodeP .dev overflowWitness = .panic :=
+  witnessK_panics 4000 (by decide) (by decide) (by decide) (by decide)
+
+theorem overflowWitness_length : overflowWitness.length = 4001 := by
+  simp only [overflowWitness, witnessK, List.length_append, List.length_replicate,
+    List.length_cons, List.length_nil]
+
 end AcmedVerif.Idna
